@@ -94,6 +94,16 @@ def run(ctx, chk):
     R7 = chk.rule("S7-NO-NARROWING", "between decoding a word and storing/looking it up no value is narrowed by an `as` cast that can drop "
                   "set bits: the only narrowing integer casts in rspirv::binary::parser are the two halves of the first instruction word")
     nn = 0
+    # a narrowing cast is accepted only inside parse_inst or a function that only parse_inst calls (the split of the first word), and only
+    # if parse_inst, evaluated on witness words whose nibbles are pairwise distinct, yields exactly (word >> 16, word & 0xffff)
+    callers = {}
+    for p_, fn_ in mir.fns.items():
+        for b_ in fn_["blocks"]:
+            t_ = b_["t"]
+            if t_["t"] == "call" and t_.get("r"):
+                callers.setdefault(mir_name(t_["r"]).split("::")[-1], set()).add(mir_name(p_).split("::")[-1])
+    from . import headerx as _hx
+    split_ok = all(pb is None for _i, pb, _s in _hx.parse_inst_problems(ctx))
     width = {"u8": 8, "u16": 16, "u32": 32, "u64": 64, "usize": 64, "i8": 8, "i16": 16, "i32": 32, "i64": 64, "isize": 64}
     for p, fn in mir.fns.items():
         nm = mir_name(p)
@@ -106,7 +116,8 @@ def run(ctx, chk):
                         continue
                     nn += 1
                     fnm = nm.split("::")[-1]
-                    chk.check(R7, fnm == "split_into_word_count_and_opcode", "%s:%s->%s" % (fnm, s["from"], s["to"]),
+                    in_split = nm.startswith("binary::parser::") and (fnm == "parse_inst" or callers.get(fnm) == {"parse_inst"})
+                    chk.check(R7, in_split and split_ok and s["from"] == "u32" and s["to"] == "u16", "%s:%s->%s" % (fnm, s["from"], s["to"]),
                               "narrowing cast %s -> %s in %s" % (s["from"], s["to"], nm), where(s["span"]), key="C01:narrow:%s:%s->%s" % (fnm, s["from"], s["to"]))
     chk.floor(R7, "narrowing casts audited", nn, 2)
     chk.analysed.update({"loader_sinks": sorted(sinks), "assembler_paths": emitted, "narrowing_casts": nn})
